@@ -49,6 +49,10 @@ def h_cap(a):
 
 def h_kw(x, y=2):
     return x * 3 - y
+
+
+def h_d3(x, y=2, z=7):
+    return x * 100 + (y * 10 + z)
 '''
 
 PLANS = {"quick": [("helper3", "helper", 3, 9000)], "thorough": [("helper3", "helper", 3, None),
